@@ -5,12 +5,15 @@ from pyvc.runner import run_contracts
 
 def run(tier, seed):
     rep = Report("C03", tier, seed, level="proof")
+    from contracts.tokens_c import token_contracts
     from contracts.utils_tables_c import fold_contracts
 
     cs = fold_contracts()
+    # operand evaluation: _e and what it relies on (numeric rendering of HASH("...") tokens)
+    cs += [c for c in token_contracts() if c.name in ("utils._e", "types.compute_hash{NUMERIC}", "utils.calc_hash", "types._apply_output_mode")]
     # the value clauses belong to C03; the kind clauses are reported by C09
     run_contracts(rep, cs, prop_filter=lambda ob: "#kind_is_number" not in ob.id)
-    rep.trust("spec/ic10_ops.py (IC10 ALU semantics)", "pyvc encoding of Python floats as IEEE-754 binary64 (z3 FP theory)",
-              "z3 4.x/5.1 and cvc5 as decision procedures")
+    rep.trust("spec/ic10_ops.py (IC10 ALU semantics)", "spec/tokens.py, spec/crc32.py (HASH = signed CRC-32)",
+              "pyvc encoding of Python floats as IEEE-754 binary64 (z3 FP theory)", "z3 5.1 and cvc5 as decision procedures")
     rep.assume("domain: finite doubles; |v| < 2**53 for bit operations; shift counts 0..63; positive modulus (property C03 quantifier)")
     return rep.finish(min_obligations=40)
